@@ -178,7 +178,8 @@ class Fixtures:
     def grid(self, c):
         n = c["n"]
         shape = {"asc": [i for i in range(n)], "desc": [-i for i in range(n)], "const": [0] * n,
-                 "nonmono": [n - 3 if i == n - 1 else i for i in range(n)]}[c["grid"]]
+                 "nonmono": [n - 3 if i == n - 1 else i for i in range(n)],
+                 "ascnu": [(i * (i + 1)) // 2 for i in range(n)], "descnu": [-((i * (i + 1)) // 2) for i in range(n)]}[c["grid"]]
         return np.array(shape, dtype=float) * self.tick_time(c)
 
     def flip_indices(self, c):
